@@ -100,7 +100,7 @@ var wantArms = []string{
 }
 
 func checkC12(c *core.Ctx, l *core.Ledger) {
-	l.Explanation = "Static clauses of C12: (ENV-SEQ) strict and legacy envelope headers are written and read (stream and random-access readers) with the same ordered layout as the frozen Thrift rows, sharing the version constant/mask; (CLASSIFY) DecodeRequest and ReadRequest classify the first two bytes with the same three-way test in the same priority, check the envelope type before succeeding and build the same responder with Name/SeqID taken from the decoded envelope; (ECHO) each responder re-wraps with its own framing and echoes its Name/SeqID with the caller's type, the bare responder writes the bare struct, the envelope server copies request Name/SeqID; (FULL-READ) no raw io.Reader.Read in protocol/binary, so read segmentation cannot change classification; (PAIR) every borrowed stream reader/writer is released on all exits. NOT decided: round-trip equality of names/bodies, multiplexed names, seqid extremes."
+	l.Explanation = "Static clauses of C12: (ENV-SEQ) strict and legacy envelope headers are written and read (stream and random-access readers) with the same ordered layout as the frozen Thrift rows, sharing the version constant/mask; (CLASSIFY) DecodeRequest and ReadRequest classify the first two bytes with the same three-way test in the same priority, check the envelope type before succeeding and build the same responder with Name/SeqID taken from the decoded envelope; (ECHO) each responder re-wraps with its own framing and echoes its Name/SeqID with the caller's type, the bare responder writes the bare struct, the envelope server copies request Name/SeqID; (FULL-READ) no raw io.Reader.Read in protocol/binary, so read segmentation cannot change classification; (PAIR) every borrowed stream reader/writer is released on all exits. (REPLY-CLASS) envelope.ReadReply, evaluated for all 256 type bytes: Reply yields the body, Exception the decoded TApplicationException, every other value an error that never reaches the exception decoder. NOT decided: round-trip equality of names/bodies, multiplexed names, seqid extremes."
 	l.RuleText = "one obligation per (rule, function or arm)"
 	l.Assumptions = []string{"io.ReadFull reads exactly len(buf) bytes unless the stream ends"}
 	m := newWireModel(c)
@@ -247,6 +247,8 @@ func checkC12(c *core.Ctx, l *core.Ledger) {
 		l.Check(ok, "CLASSIFY", "ReadRequest.body-order", c.Rel(rr.Pos()), "header, then body.Decode, then ReadEnvelopeEnd on every enveloped arm; bare arms decode the body directly", "an arm of ReadRequest does not decode the body between envelope begin and end")
 	}
 	l.Floor("CLASSIFY", 4)
+
+	checkReplyClassify(c, l)
 
 	// 3. ECHO
 	echo := []struct {
@@ -829,4 +831,96 @@ func compareArmTables(a, b map[[2]int64]string) []string {
 		}
 	}
 	return diffs
+}
+
+// checkReplyClassify (REPLY-CLASS): envelope.ReadReply, evaluated for every
+// possible envelope type byte: type Reply returns the body with a nil error;
+// type Exception returns the decoded TApplicationException (the path passes
+// FromWire); every other type — the defined Call and OneWay and the 252
+// undefined values alike — is an error of its own and never reaches the
+// exception decoder. A client must not mistake a malformed reply for an
+// application exception.
+func checkReplyClassify(c *core.Ctx, l *core.Ledger) {
+	f := c.SSAFunc(c.LookupFunc("envelope", "ReadReply"))
+	if f == nil {
+		l.Unk("REPLY-CLASS", "envelope.ReadReply", "", "not found")
+		return
+	}
+	isType := func(v ssa.Value) bool {
+		fld, _ := core.LoadedField(v)
+		if fld == nil {
+			if fv, ok := v.(*ssa.Field); ok {
+				fld = core.FieldOf(fv)
+			}
+		}
+		return fld != nil && fld.Name() == "Type" && core.TypeLabel(fld.Type()) == "wire.EnvelopeType"
+	}
+	classOf := func(k int64) (string, string) {
+		paths, ok := c.FiniteEval(f, core.FEOpts{Key: func(v ssa.Value) (core.CVal, bool) {
+			if isType(v) {
+				return core.CVal{Kind: core.CInt, I: k}, true
+			}
+			return core.CVal{}, false
+		}})
+		if !ok {
+			return "?", "too many paths"
+		}
+		set := map[string]bool{}
+		for _, p := range paths {
+			if p.Ret == nil || len(p.Ret.Results) == 0 {
+				continue
+			}
+			decoded := false
+			firstErr := false
+			for i, call := range p.Calls {
+				name := ""
+				if call.Common().IsInvoke() {
+					name = call.Common().Method.Name()
+				} else if cal := call.Common().StaticCallee(); cal != nil {
+					name = cal.Name()
+				}
+				if name == "FromWire" {
+					decoded = true
+				}
+				_ = i
+			}
+			// the failure exit right after DecodeEnveloped is the same for every type: skip paths that return its error
+			errv := p.Ret.Results[len(p.Ret.Results)-1]
+			if ex, isEx := errv.(*ssa.Extract); isEx {
+				if call, isCall := ex.Tuple.(*ssa.Call); isCall && call.Common().IsInvoke() && call.Common().Method.Name() == "DecodeEnveloped" {
+					firstErr = true
+				}
+			}
+			if firstErr {
+				continue
+			}
+			switch {
+			case core.IsNilErrorReturn(p.Ret):
+				set["ok"] = true
+			case decoded:
+				set["exception"] = true
+			default:
+				set["error"] = true
+			}
+		}
+		return joinKeys(set), ""
+	}
+	var bad []string
+	for k := int64(0); k < 256; k++ {
+		want := "error"
+		switch k {
+		case 2:
+			want = "ok"
+		case 3:
+			want = "error|exception" // decoding the exception body may itself fail
+		}
+		got, why := classOf(k)
+		if got != want && !(k == 3 && got == "exception") {
+			bad = append(bad, fmt.Sprintf("type %d: %s%s (want %s)", k, got, why, want))
+			if len(bad) >= 4 {
+				break
+			}
+		}
+	}
+	l.Check(len(bad) == 0, "REPLY-CLASS", "envelope.ReadReply", c.Rel(f.Pos()), "for all 256 envelope type bytes: Reply => body, Exception => decoded TApplicationException, anything else => an error that is not an application exception", "replies are classified differently: "+strings.Join(bad, "; "))
 }
